@@ -3,15 +3,16 @@
 # runs every check, undoes the patch straight afterwards):
 #   /verif/seeded/<id>/patch.diff   must be reported under its own property (meta.json "property")
 #   /verif/benign/<id>.diff         behaviour-preserving refactorings: no check may report anything
-# Prints one line per patch and a summary; exit 1 if a seeded change is missed or a benign one is reported.
+# Prints one line per patch and a summary; exit 1 if a seeded change is missed, a benign one is reported,
+# or a patch no longer applies (the corpus never shrinks silently).
 set -u
 cd /verif
 [ -z "$(git -C /repo status --porcelain)" ] || { echo "/repo not clean"; exit 2; }
-bad=0; ns=0; nb=0
+bad=0; ns=0; nb=0; stale=0
 run() { /verif/bin/hdrcheck -property all -verif /tmp/regress_verif 2>&1 | grep -E "^ *(VIOLATED|UNDECIDED)|LOAD ERROR" | awk '{print $2}' | sort -u | tr '\n' ' '; }
 for d in seeded/*/; do
   id=$(basename $d); prop=$(python3 -c "import json;print(json.load(open('$d/meta.json'))['property'])")
-  if ! git -C /repo apply "/verif/$d/patch.diff" 2>/dev/null; then echo "SEEDED $id: patch does not apply (stale)"; continue; fi
+  if ! git -C /repo apply "/verif/$d/patch.diff" 2>/dev/null; then echo "SEEDED $id: patch does not apply (stale: rebase it onto /repo HEAD)"; stale=$((stale+1)); bad=1; continue; fi
   got=$(run); git -C /repo checkout -- .
   ns=$((ns+1))
   case " $got" in *" $prop."*) echo "SEEDED $id: reported [$got]";; *) echo "SEEDED $id: MISSED under $prop [$got]"; bad=1;; esac
@@ -19,11 +20,11 @@ done
 for f in benign/*.diff; do
   [ -f "$f" ] || continue
   id=$(basename $f .diff)
-  if ! git -C /repo apply "/verif/$f" 2>/dev/null; then echo "BENIGN $id: patch does not apply (stale)"; continue; fi
+  if ! git -C /repo apply "/verif/$f" 2>/dev/null; then echo "BENIGN $id: patch does not apply (stale: rebase it onto /repo HEAD)"; stale=$((stale+1)); bad=1; continue; fi
   got=$(run); git -C /repo checkout -- .
   nb=$((nb+1))
   if [ -n "$got" ]; then echo "BENIGN $id: FALSE ALARM [$got]"; bad=1; else echo "BENIGN $id: silent"; fi
 done
 [ -z "$(git -C /repo status --porcelain)" ] || { echo "/repo NOT RESTORED"; exit 2; }
-echo "regress: $ns seeded, $nb benign, $( [ $bad = 0 ] && echo all as expected || echo FAILURES )"
+echo "regress: $ns seeded, $nb benign, $stale stale, $( [ $bad = 0 ] && echo all as expected || echo FAILURES )"
 exit $bad
